@@ -201,8 +201,27 @@ def run(facts, rep, tier):
         if lets:
             names = [p.get("name") for p in lets[0]["pat"]["pats"]]
             boxed_from = [n for n, _ in nodes(h["body"], "let") if n["pat"].get("k") == "bind" and any(x.get("fn") in {sites[0][0]["fn"]} for x, _ in walk(n.get("init") or {}) if x.get("k") in ("call", "mcall"))]
-            ok = bool(boxed_from) and src(boxed_from[0]["init"]).startswith(names[0] + ".into_iter()")
-            rep.ob("C07.W3", "boxed-are-the-snipped", ok, "box ids are allocated for `%s` (the partition's true side)" % names[0] if ok else "boxes are allocated for the wrong side of the partition", lets[0].get("sp"))
+            from lib import scope_binding
+            anc_of = {id(n_): a_ for n_, a_ in walk(h["body"])}
+            ok = False
+            got_txt = "?"
+            if boxed_from:
+                # the receiver chain of the map that allocates the boxes: its root must be the partition's true side itself
+                e = boxed_from[0]["init"]
+                chain = []
+                while isinstance(e, dict) and e.get("k") == "mcall":
+                    chain.append(e["name"])
+                    e = e["recv"]
+                e = strip_refs(e) if isinstance(e, dict) else {}
+                got_txt = src(boxed_from[0]["init"])[:100]
+                if e.get("k") == "path" and e.get("res") == "local":
+                    b_ = scope_binding(h, anc_of.get(id(e), ()), e["path"], e)
+                    drops = [m_ for m_ in chain if m_ in ("filter", "filter_map", "skip", "take", "take_while", "skip_while", "step_by", "dedup")]
+                    ok = bool(b_) and b_[0] == "let" and b_[1] is lets[0] and b_[2] == 0 and not drops
+                    if b_ and b_[0] == "let" and b_[1] is not lets[0]:
+                        got_txt = src(b_[1].get("init") or {})[:100]
+            rep.ob("C07.W3", "boxed-are-the-snipped", ok, "box ids are allocated for every child on the partition's true side" if ok else
+                   "the children that get a Box are `%s`, not every child found in the active set: a back edge that is not boxed leaves its cycle uncut (both ends are already marked visited, so it is never looked at again)" % got_txt, lets[0].get("sp"))
             desc = [n for n, _ in nodes(h["body"], "struct") if "Processing" in n["path"] and any(f[0] == "children_ids" and src(f[1]) == names[1] for f in n["fields"])]
             rep.ob("C07.W3", "descend-into-the-rest", bool(desc), "the other side `%s` is what is descended into" % names[1] if desc else "the non-snipped children are not the ones descended into")
         # roles of the DFS's locals, by use and type (not by name)
